@@ -229,12 +229,17 @@ pub fn plain_contract_name(instance: u64) -> String {
     match instance {
         0 => "Vault".to_string(),
         1 => "vault".to_string(),
-        2 => "VAULT".to_string(),
-        3 => "vault/".to_string(),
-        4 => "vaul".to_string(),
-        5 => "vault\u{1}".to_string(),
-        6 => "contract_data/vault".to_string(),
-        7 => "vaulT".to_string(),
+        // the last byte one higher than another contract's: the two namespaces are neighbours
+        2 => "vaulu".to_string(),
+        3 => "vaulT".to_string(),
+        4 => "VAULT".to_string(),
+        5 => "vault/".to_string(),
+        6 => "vaul".to_string(),
+        7 => "vault\u{1}".to_string(),
+        8 => "contract_data/vault".to_string(),
+        9 => "vauls".to_string(),
+        10 => "vault0".to_string(),
+        11 => "vault\u{0}".to_string(),
         n => format!("{}{}", if n % 2 == 0 { "Pool" } else { "pool" }, n / 2),
     }
 }
